@@ -71,6 +71,11 @@ class Session:
         self.server_cipher_change = False
         self.client_cipher_change = False
 
+        # handshake messages may be fragmented across records and share records (RFC 5246 6.2.1, RFC 8446 5.1): per direction
+        # [bytes of the current message still to come, its type, bytes of an incomplete message header]
+        self.handshake_pending = {False: [0, None, b""], True: [0, None, b""]}
+        self.handshake_13_pending = {False: [0, None, b""], True: [0, None, b""]}
+
         self.decryptor: Decryptor
         self.decryptor = None
 
@@ -303,6 +308,13 @@ class Session:
                 logging.warning(f"Could not decrypt Record: Handshake finished")
             return
 
+        pending = self.handshake_pending[isserver]
+        starts_message = pending[0] == 0 and pending[2] == b""
+        self.completed_handshake_messages(pending, record.binary)
+        if not starts_message:
+            # the record continues a handshake message that began in an earlier record: its first byte is not a message type
+            return
+
         match record.binary[0]:
             # client Hello
             case 0x01:
@@ -320,6 +332,32 @@ class Session:
                     self.handle_handshake_finished(record, isserver)
                 except Exception as e:
                     logging.warning(f"Could not decrypt Record: Handshake finished")
+
+    @staticmethod
+    def completed_handshake_messages(pending, data):
+        """Follows the handshake messages of one direction across record boundaries.
+
+            :param pending: [bytes of the current message still to come, its type, bytes of an incomplete header] (updated)
+            :param data: handshake bytes of the next record
+            :return: types of the handshake messages that end in this record
+            :rtype: list[int]
+        """
+        completed = []
+        index = 0
+        while index < len(data):
+            if pending[0] == 0:
+                header = pending[2] + bytes(data[index:index + 4 - len(pending[2])])
+                index += len(header) - len(pending[2])
+                if len(header) < 4:
+                    pending[2] = header
+                    break
+                pending[0], pending[1], pending[2] = int.from_bytes(header[1:4], 'big'), header[0], b""
+            part = min(pending[0], len(data) - index)
+            pending[0] -= part
+            index += part
+            if pending[0] == 0:
+                completed.append(pending[1])
+        return completed
 
     def handle_handshake_finished(self, record, isserver):
         if self.decryptor is None:
@@ -403,15 +441,9 @@ class Session:
         self.client_hello_seen = False
 
     def handle_decrypted_tls_13_handshake_record(self, plaintext, isserver):
-        index = 0
-        while index < len(plaintext):
-            handshake_type = plaintext[index]
-            length = int.from_bytes(plaintext[index + 1:index + 4], 'big')
-
+        for handshake_type in self.completed_handshake_messages(self.handshake_13_pending[isserver], plaintext):
             if handshake_type == 20:
                 self.decryptor.update_keys(isserver)
-
-            index += length + 4
 
     def handle_tls_13_application_record(self, record: TlsRecord, isserver):
         try:
